@@ -197,5 +197,10 @@ fn end(name: &str) -> Event<'_> {
 
 /// text event
 fn text(content: &str) -> Event<'_> {
+    if content.contains('\r') {
+        // a reader normalises a literal carriage return to a line feed, so it has to be escaped
+        let escaped = quick_xml::escape::escape(content).replace('\r', "&#13;");
+        return Event::Text(BytesText::from_escaped(escaped));
+    }
     Event::Text(BytesText::new(content))
 }
